@@ -74,6 +74,9 @@ func (C05) Gen(rng *core.Rng, tier string, idx int) *core.Scenario {
 		}
 		cfg.StopS = p64(st)
 	}
+	if rng.Chance(0.15) { // UTCTiming variants: nothing in the MPD may depend on the request instant but through publishTime
+		cfg.Extra = append(cfg.Extra, core.Pick(rng, []string{"utc_direct", "utc_direct-ntp", "utc_httpiso", "utc_head-sntp", "utc_none"}))
+	}
 	w := c05World{VodRoot: label, Gen: gen, Asset: ar.Asset, MPD: ar.MPD, Cfg: cfg}
 	sc := core.NewScenario("C05", "tlsim", 0, tier, w)
 	nOps := rng.Range(5, 12)
